@@ -283,6 +283,31 @@ pub fn structural_probes() -> Vec<Probe> {
         };
         v.push(Probe { name: format!("sink_program_{}", v.len()), class: "covariant-sink|program: &'gc T parked in the root through a GcBuilder".into(), negative: body("&String", "s.as_ref()", "&'gc String"), twin: body("&'static String", "&FIXED", "&'static String") });
     }
+    // every pointer-to-pointer conversion keeps the brand of its operand: the result cannot be given
+    // an unrelated brand `'b`
+    let conv: [(&str, &str, &str, &str); 16] = [
+        ("unsize! on Gc", "g: Gc<'a, [u8; 2]>", "Gc<'b, [u8]>", "gc_arena::unsize!(g => [u8])"),
+        ("unsize! on GcWeak", "g: GcWeak<'a, [u8; 2]>", "GcWeak<'b, [u8]>", "gc_arena::unsize!(g => [u8])"),
+        ("unsize! identity on GcWeak", "g: GcWeak<'a, String>", "GcWeak<'b, String>", "gc_arena::unsize!(g => String)"),
+        ("unsize! to dyn on GcWeak", "g: GcWeak<'a, u8>", "GcWeak<'b, dyn std::fmt::Debug>", "gc_arena::unsize!(g => dyn std::fmt::Debug)"),
+        ("Gc::erase", "g: Gc<'a, u8>", "Gc<'b, ()>", "Gc::erase(g)"),
+        ("GcWeak::erase", "g: GcWeak<'a, u8>", "GcWeak<'b, ()>", "GcWeak::erase(g)"),
+        ("Gc::erase_kind", "g: gc_arena::GcSlice<'a, u8>", "Gc<'b, [u8]>", "Gc::erase_kind(g)"),
+        ("Gc::downgrade", "g: Gc<'a, u8>", "GcWeak<'b, u8>", "Gc::downgrade(g)"),
+        ("GcWeak::upgrade", "g: GcWeak<'a, u8>, mc: &Mutation<'a>", "Option<Gc<'b, u8>>", "g.upgrade(mc)"),
+        ("Gc::as_thin", "g: gc_arena::GcStr<'a>", "gc_arena::GcThinStr<'b>", "Gc::as_thin(g)"),
+        ("Gc::as_fat", "g: gc_arena::GcThinStr<'a>", "gc_arena::GcStr<'b>", "Gc::as_fat(g)"),
+        ("Gc::as_ref", "g: Gc<'a, std::cell::Cell<u8>>", "&'b std::cell::Cell<u8>", "Gc::as_ref(g)"),
+        ("Gc::write", "g: Gc<'a, RefLock<u8>>, mc: &Mutation<'a>", "&'b Write<RefLock<u8>>", "Gc::write(mc, g)"),
+        ("Gc::unlock", "g: Gc<'a, RefLock<u8>>, mc: &Mutation<'a>", "&'b RefCell<u8>", "g.unlock(mc)"),
+        ("DynamicRootSet::fetch", "g: DynamicRootSet<'a>, h: &DynamicRoot<Rootable![i32]>", "Gc<'b, i32>", "g.fetch(h)"),
+        ("ZstCache::cached_ptr", "g: ZstCache<'a, 8>", "Gc<'b, ()>", "g.cached_ptr()"),
+    ];
+    for (n, args, out, body) in conv {
+        let neg = format!("{PRELUDE}\nfn rebrand<'a, 'b>({args}) -> {out} {{ {body} }}\nfn main() {{}}\n");
+        let twin = format!("{PRELUDE}\nfn keep<'a>({args}) -> {} {{ {body} }}\nfn main() {{}}\n", out.replace("'b", "'a"));
+        v.push(Probe { name: format!("conv_brand_{}", v.len()), class: format!("conversion-changes-brand|{n}"), negative: neg, twin });
+    }
     // exported macros contain unsafe blocks; a caller-supplied operand evaluated inside one would let
     // a program without `unsafe` transmute a brand away
     for (n, tpl) in [
